@@ -543,7 +543,10 @@ Members(P, d) ==
     LET h == HeadPos(P, d) IN
     IF h = 0 \/ HasZero(P, d) THEN DefaultMembers
     ELSE LET dr == StepRec(P, d, Exec(P, d)[h]) IN
-         UNION {{[cls |-> c, pi |-> i, pt |-> PtsOf(dr, c)[i], M |-> M] : i \in 1..Len(PtsOf(dr, c)), M \in PipeMasks} : c \in {"in", "out", "edge", "nul"}}
+         \* of the inside points only the first, generic one: where the image of a special point (pole, axis, centre)
+         \* lies for the next step is not something this abstraction knows; they are exercised by the single cases
+         UNION {{[cls |-> c, pi |-> i, pt |-> PtsOf(dr, c)[i], M |-> M] : i \in 1..(IF c = "in" THEN 1 ELSE Len(PtsOf(dr, c))), M \in PipeMasks}
+                : c \in {"in", "out", "edge", "nul"}}
 
 Initial(m) == [el |-> [e \in E |-> IF e \in m.M THEN "nan" ELSE "same"], sn |-> m.M # {}]
 \* the abstract run of one member: sequence (one entry per executed step) of [cnt, a]
